@@ -1,2 +1,11 @@
 import IweModel.Props.C04
-#print axioms Iwe.C20.wf_empty
+#print axioms Iwe.C04.inv_import
+#print axioms Iwe.C04.inv_updateKey
+#print axioms Iwe.C04.inv_reachable
+#print axioms Iwe.C04.inv_congr
+#print axioms Iwe.C04.toMarkdown_spec
+#print axioms Iwe.C04.title_spec
+#print axioms Iwe.C04.blockBacklinks_spec
+#print axioms Iwe.C04.inlineBacklinks_spec
+#print axioms Iwe.C04.nodeIdAt_spec
+#print axioms Iwe.C04.incremental_eq_fresh
